@@ -1053,6 +1053,28 @@ def ext_str_starts_with(e, m, args):
     raise Unsupported("starts_with pattern %r" % (pat,))
 
 
+def ext_char_class(e, m, args):
+    c = _deref(e, args[0])
+    if isinstance(c, tuple) and c[0] == "char":
+        c = ord(c[1])
+    rng = {"digit": [(48, 57)], "hexdigit": [(48, 57), (65, 70), (97, 102)], "alphabetic": [(65, 90), (97, 122)],
+           "alphanumeric": [(48, 57), (65, 90), (97, 122)], "uppercase": [(65, 90)], "lowercase": [(97, 122)],
+           "punctuation": [(33, 47), (58, 64), (91, 96), (123, 126)], "whitespace": [(9, 10), (12, 13), (32, 32)]}[m.group(1)]
+    if is_sym(c):
+        return z3.Or(*[z3.And(c >= lo, c <= hi) for lo, hi in rng])
+    return any(lo <= c <= hi for lo, hi in rng)
+
+
+def ext_str_starts_with_closure(e, m, args):
+    s = args[0]
+    text = s[1].decode() if isinstance(s[1], bytes) else s[1]
+    if not text:
+        return False
+    cty = re.search(r"(\{closure@[^}]*\})", m.group(0)).group(1)
+    first = ord(text[0]) if getattr(e, "chars_as_ints", False) else ("char", text[0])
+    return e.call_fn(e.closure_fn(cty), [Ref({0: args[1]}, 0, ()), first])
+
+
 def ext_opt_unwrap(e, m, args):
     o = args[0]
     if o[0] != "Some":
@@ -1086,7 +1108,9 @@ STD_MODELS = [
     (r"^must_use::<.*>$", lambda e, m, a: a[0]),
     (r"^<(?:Arc|std::sync::Arc|Box|std::boxed::Box)<.*> as Clone>::clone$", lambda e, m, a: _deref(e, a[0])),
     (r"^<(?:i64|u64|f64|bool|usize|TimeDelta|chrono::TimeDelta|DateTime<FixedOffset>|chrono::DateTime<chrono::FixedOffset>) as Clone>::clone$", lambda e, m, a: _deref(e, a[0])),
+    (r"^core::str::<impl str>::starts_with::<\{closure@[^}]*\}>$", ext_str_starts_with_closure),
     (r"^core::str::<impl str>::starts_with::<.*>$", ext_str_starts_with),
+    (r"^(?:core::)?char::methods::<impl char>::is_ascii_(digit|hexdigit|alphabetic|alphanumeric|uppercase|lowercase|punctuation|whitespace)$", ext_char_class),
     (r"^std::option::Option::<.*>::as_ref$", ext_opt_as_ref),
     (r"^std::option::Option::<.*>::(is_some|is_none)$", ext_opt_is),
     (r"^std::option::Option::<.*>::unwrap_or$", ext_opt_unwrap_or),
